@@ -15,7 +15,7 @@ class C12(Prop):
                    "the iteration number of Event Sync / Context Sync records (stream -1, device side for linking, host side for numbering) is not asserted"]
 
     def gen_case(self, rng, k, tier):
-        return gen_load_case(rng, tier, "C12")
+        return gen_load_case(rng, tier, "C12", k)
 
     def observe(self, case):
         return observe_load(case, "C12")
